@@ -24,6 +24,20 @@ NOT_APPLICABLE = {
 
 # id -> (technique, level text, level note, design ref)
 CLAIMS = {
+    'C32': ('sibling comparison of canonicalised guard blocks, alpha-insensitive patterns for site lookup and interaction '
+            'bookkeeping',
+            'Static, exhaustive over the three ClusterSupercell evaluators and the sampler energy: decides that they share the '
+            'vacancy-cluster guard, the site lookup and the occupancy convention, that clusterevaluator keys/accumulates/'
+            'registers interactions consistently, and that the sampler energy sums exactly the fully occupied interactions '
+            'of the energy range. Numerical agreement with a brute-force sum is not decided.',
+            'trusts CPython ast', 'DESIGN.md §4 C32'),
+    'C34': ('exchange antisymmetry of canonicalised list comprehensions under endpoint swap with weight negation, '
+            'orientation and half-weight patterns, lock-step bookkeeping patterns',
+            'Static, exhaustive over jumpnetworkevaluator and jumpnetworkevaluator_vacancy: decides that initial- and '
+            'final-centred interaction lists are mirror images with opposite weight (so Q(i->j) - Q(j->i) = E(j) - E(i) by '
+            'construction), that the initial side is the negative one, that energy clusters enter with half weight and TS '
+            'clusters symmetrically, and that jumps and interaction ranges stay in step. Barrier values are not decided.',
+            'trusts CPython ast; canonical form treats + as commutative', 'DESIGN.md §4 C34'),
     'C21': ('reversal-pairing patterns, linear-form equality of the four lattice-vector formulas, sibling equality of the '
             'search-range formula, pop-during-iteration lint, alpha-insensitive pattern for the symmetry expansion',
             'Static, exhaustive over Crystal.jumpnetwork / jumpnetwork2lattice and the three other sites of the lattice-vector '
